@@ -117,6 +117,17 @@ def block(g, depth, kinds):
         return [m + " {nosuchrole%s}`x`" % m], [(m, 0, "paragraph", None), (m, 0, "warning:role_unknown", None)]
     if kind == "directive":
         return directive(g, depth, kinds)
+    if kind == "code-unknown-lang":
+        m = g.marker()
+        return ["```nosuchlexer", m, "```"], [(m, 0, "literal_block", None)]
+    if kind in ("dir-container", "dir-topic", "dir-compound", "dir-rubric"):
+        # directives whose docutils class sets no source info on its output: the line comes from the document's current line
+        m = g.marker()
+        name = kind[4:]
+        if name == "rubric":
+            return ["```{rubric} " + m + " title", "```"], [(m, 0, "rubric", None)]
+        arg = {"container": " cls", "topic": " Topic title", "compound": ""}[name]
+        return ["```{%s}%s" % (name, arg), m + " body", "```"], [(m, 0, name, None), (m, 1, "paragraph", None)]
     if kind == "container":
         # ':::name' without braces is a plain container (div): its body is a nested render of the fence content
         bl, bm = blocks(g, 0, 2, ["para", "quote", "unknown-role"])
@@ -197,7 +208,7 @@ def find_nodes(document):
             continue
         if kind in ("paragraph", "literal_block", "rubric", "title"):
             out.append((kind, _marker_in(plain_text(n)), n))
-        elif kind in ("block_quote", "bullet_list", "list_item", "note", "section", "container"):
+        elif kind in ("block_quote", "bullet_list", "list_item", "note", "section", "container", "topic", "compound"):
             out.append((kind, _marker_in(plain_text(n)), n))
         elif kind == "target":
             out.append((kind, (n.get("names") or n.get("ids") or [""])[0], n))
@@ -286,20 +297,29 @@ def make_include(eng):
     g = Gen(eng)
     S = new_int(eng, "S", 0)
     state = {}
-    eng.witness_fn = lambda m: {"inc": state.get("inc"), "marks_inc": state.get("marks_inc"), "start": state.get("start"), "S": eng.eval_model(m, S), "outer_after": True}
+    eng.witness_fn = lambda m: {"inc": state.get("inc"), "marks_inc": state.get("marks_inc"), "start": state.get("start"), "opt": state.get("opt", ""), "S": eng.eval_model(m, S), "outer_after": True}
 
     def body():
         g.reset()
         lines, marks = blocks(g, 1, 1 + g.choose(2), ["para", "quote", "list", "unknown-role", "code"])
-        start = g.choose(3)  # :start-line:
-        pad = ["skipped line %d" % i for i in range(start)]
+        npad = g.choose(3)
+        mode = g.choose(3)  # how the head of the file is skipped: :start-line: n / :start-after: marker / negative :start-line:
+        pad = ["skipped line %d" % i for i in range(npad)]
+        if mode == 1:
+            pad = pad + ["head SKIPMARK", ""]
+            opt = ":start-after: SKIPMARK"
+        elif mode == 2 and npad:
+            opt = ":start-line: -%d" % len(lines)
+        else:
+            opt = ":start-line: %d" % npad if npad else ""
         inc_lines = pad + lines
-        state["inc"], state["marks_inc"], state["start"] = "\n".join(inc_lines), marks, start
+        start = len(pad)  # number of file lines in front of the first block
+        state["inc"], state["marks_inc"], state["start"], state["opt"] = "\n".join(inc_lines), marks, start, opt
         with tempfile.TemporaryDirectory(prefix="symx_c04_") as d:
             path = os.path.join(d, "inc.md")
             open(path, "w", encoding="utf8").write("\n".join(inc_lines) + "\n")
             src = os.path.join(d, "src.md")
-            outer = ["Mbefore para", "", "```{include} inc.md"] + ([":start-line: %d" % start] if start else []) + ["```", "", "Mafter para {nosuchroleafter}`x`"]
+            outer = ["Mbefore para", "", "```{include} inc.md"] + ([opt] if opt else []) + ["```", "", "Mafter para {nosuchroleafter}`x`"]
             ctx = CR.new_context(source=src)
             try:
                 run_layout(ctx, "\n".join(outer), S)
@@ -457,13 +477,14 @@ def make_sphinx_include(eng):
     return body
 
 
+FLAT_EXTRA = ["container", "code-unknown-lang", "dir-container", "dir-topic", "dir-compound", "dir-rubric"]
 ALL = ["para", "quote", "list", "code", "target", "heading", "unknown-directive", "unknown-role", "directive"]
 
 
 def families(tier, seed):
     q = tier == "quick"
     F = []
-    F.append(Family("layout/flat", make_layout, "2 blocks from %r at symbolic offset S" % (ALL[:-1] + ["container"],), args=dict(depth=0, nblocks=2, kinds=ALL[:-1] + ["container"]), nontrivial=None, max_forks=300000))
+    F.append(Family("layout/flat", make_layout, "2 blocks from %r at symbolic offset S" % (ALL[:-1] + FLAT_EXTRA,), args=dict(depth=0, nblocks=2, kinds=ALL[:-1] + FLAT_EXTRA), nontrivial=None, max_forks=300000))
     F.append(Family("layout/D1", make_layout, "one directive (backtick/colon, 3 option styles, 0-2 blank lines, merged first line) containing 1-2 blocks from %r, at symbolic offset S" % (ALL[:-1],),
                     args=dict(depth=1, nblocks=1, kinds=["directive"], inner=["para", "list", "heading", "unknown-role", "unknown-directive", "target"]), nontrivial="directive", max_forks=300000))
     if not q:
@@ -475,7 +496,7 @@ def families(tier, seed):
         F.append(Family("layout/D3", make_layout, "directive nesting depth 3; symbolic offset S", args=dict(depth=3, nblocks=1, kinds=["directive"], inner=["para", "directive"]), nontrivial="directive", max_forks=600000, required=False))
     F.append(Family("sphinx-include", make_sphinx_include, "real Sphinx builds: an unknown role inside an included file (same / sub directory) and unknown roles before / after the include in the including file: "
                     "the logged location names the file the warning belongs to (and the right line in the including file)", nontrivial="directive", max_forks=1000))
-    F.append(Family("include", make_include, "include of a file with 1-2 blocks and :start-line: 0..2 at symbolic offset S", nontrivial="directive", max_forks=300000))
+    F.append(Family("include", make_include, "include of a file with 1-2 blocks whose head is skipped by :start-line: n, :start-after: marker or a negative :start-line:, at symbolic offset S", nontrivial="directive", max_forks=300000))
     F.append(Family("toplevel", make_toplevel, "top-level render of 2 blocks (depth <= 1) tokenised by the real markdown-it", args=dict(kinds=["para", "list", "heading", "directive", "unknown-role", "dup-refdef"] if q else ALL + ["dup-refdef"]),
                     nontrivial="directive", max_forks=300000))
     return F
@@ -496,7 +517,8 @@ def replay(label, witness):
             open(path, "w", encoding="utf8").write(witness["inc"] + "\n")
             src = os.path.join(d, "src.md")
             start = witness["start"]
-            outer = ["Mbefore para", "", "```{include} inc.md"] + ([":start-line: %d" % start] if start else []) + ["```", "", "Mafter para {nosuchroleafter}`x`"]
+            opt = witness.get("opt", (":start-line: %d" % start) if start else "")
+            outer = ["Mbefore para", "", "```{include} inc.md"] + ([opt] if opt else []) + ["```", "", "Mafter para {nosuchroleafter}`x`"]
             ctx = CR.new_context(real=True, source=src)
             try:
                 ctx.renderer.nested_render_text("\n".join(outer), S)
